@@ -273,6 +273,34 @@ fn report(f: &Fail) -> ! {
     std::process::exit(1)
 }
 
+
+// ------------------------------------------------------------------------------------------------ per-history guard
+/// Thrown by `fail` when an oracle of ANOTHER property fires: the run is corrupted from here on (outputs duplicated,
+/// counters off, ...), whatever follows says nothing about the property under search, so the history is abandoned.
+struct AbortHistory;
+thread_local! { static LAST_PANIC: RefCell<String> = RefCell::new(String::new()); }
+fn install_panic_hook() {
+    std::panic::set_hook(Box::new(|info| {
+        let msg = format!("{info}");
+        LAST_PANIC.with(|l| *l.borrow_mut() = msg);
+    }));
+}
+/// Runs one history.  A panic of the real crate on a legal call sequence is a failure in its own right, reported for the
+/// properties `crash_props` (the ones whose subject is the operation that crashed) unless an oracle fired first.
+fn guarded<F: FnOnce()>(prop: &'static str, crash_props: &[&str], runner: &str, it: usize, f: F) {
+    LAST_PANIC.with(|l| l.borrow_mut().clear());
+    let r = std::panic::catch_unwind(std::panic::AssertUnwindSafe(f));
+    if let Err(payload) = r {
+        if payload.is::<AbortHistory>() || payload.is::<DryFail>() {
+            return;
+        }
+        let msg = LAST_PANIC.with(|l| l.borrow().clone());
+        if crash_props.contains(&prop) {
+            report(&Fail { prop, scenario: format!("{runner}: random history #{it} (re-run the same command to reproduce)"), history: vec![], what: format!("the real crate panicked on a legal call sequence: {}", msg.replace('\n', " ")) });
+        }
+    }
+}
+
 // ------------------------------------------------------------------------------------------------ collections (C02 C04 C05 C08 C12 C13 C14 C15 C01)
 enum Coll {
     Fub(FuturesUnorderedBounded<Fut>),
@@ -326,7 +354,8 @@ impl Coll {
             }
             Coll::Fob(c) => c.try_push_back(f),
             Coll::Fo(c) => {
-                c.push_back(f);
+                // every third future goes in through the Extend impl (a function without a contract)
+                if f.id % 3 == 2 { c.extend(std::iter::once(f)); } else { c.push_back(f); }
                 Ok(())
             }
         }
@@ -360,13 +389,10 @@ fn run_collections(prop: &'static str, seed: u64, iters: usize) {
         let mut refusal_independent = false;
         if prop == "C15" {
             let mut r2 = Rng(rng.0);
-            let hook = std::panic::take_hook();
-            std::panic::set_hook(Box::new(|_| {}));
             let res = std::panic::catch_unwind(std::panic::AssertUnwindSafe(|| collections_history(prop, &mut r2, it, true, false)));
-            std::panic::set_hook(hook);
-            refusal_independent = res.is_err();
+            refusal_independent = matches!(&res, Err(p) if p.is::<DryFail>());
         }
-        collections_history(prop, &mut rng, it, false, refusal_independent);
+        guarded(prop, &["C02", "C15"], "collections", it, || collections_history(prop, &mut rng, it, false, refusal_independent));
     }
 }
 struct DryFail;
@@ -435,6 +461,8 @@ fn collections_history(prop: &'static str, rng: &mut Rng, it: usize, skip_refuse
             if props.contains(&prop) || via_refusal {
                 let what = if via_refusal { format!("{what} (after a refused push in this history: the refusal disturbed the collection)") } else { what };
                 report(&Fail { prop, scenario: scenario.clone(), history: hist.clone(), what })
+            } else {
+                std::panic::panic_any(AbortHistory)
             }
         };
         for _ in 0..steps {
@@ -785,6 +813,7 @@ fn run_budget(prop: &'static str) {
 fn run_adapters(prop: &'static str, seed: u64, iters: usize) {
     let mut rng = Rng(seed.wrapping_mul(0xD1B54A32D192ED03) | 1);
     for it in 0..iters {
+        guarded(prop, &["C09", "C10"], "run_adapters", it, || {
         // every 40th history is a burst: many immediately-ready jobs, so that internal per-poll budgets are crossed
         let burst = it % 40 == 39;
         let n = if burst { [1usize, 4, 48][rng.below(3)] } else { 1 + rng.below(3) };
@@ -813,7 +842,7 @@ fn run_adapters(prop: &'static str, seed: u64, iters: usize) {
         let waker = Waker::from(tw.clone());
         let mut cx = Context::from_waker(&waker);
         let mut hist: Vec<String> = vec![];
-        let fail = |props: &[&str], hist: &Vec<String>, what: String| { if props.contains(&prop) { report(&Fail { prop, scenario: scenario.clone(), history: hist.clone(), what }) } };
+        let fail = |props: &[&str], hist: &Vec<String>, what: String| { if props.contains(&prop) { report(&Fail { prop, scenario: scenario.clone(), history: hist.clone(), what }) } else { std::panic::panic_any(AbortHistory) } };
         // build
         type BoxS = Pin<Box<dyn Stream<Item = Result<usize, usize>>>>;
         let called = Rc::new(Cell::new(0usize));
@@ -939,6 +968,7 @@ fn run_adapters(prop: &'static str, seed: u64, iters: usize) {
                 fail(&["C08"], &hist, format!("future {i} was polled at one address and polled again or dropped at another"));
             }
         }
+        });
     }
 }
 struct MapOk<S>(S);
@@ -990,6 +1020,7 @@ impl Stream for FutStream {
 fn run_join(prop: &'static str, seed: u64, iters: usize) {
     let mut rng = Rng(seed.wrapping_mul(0xA24BAED4963EE407) | 1);
     for _ in 0..iters {
+        guarded(prop, &["C07"], "run_join", 0, || {
         let n = rng.below(5);
         let try_variant = rng.below(2) == 0;
         let scenario = format!("{}(n={n})", if try_variant { "try_join_all" } else { "join_all" });
@@ -997,7 +1028,7 @@ fn run_join(prop: &'static str, seed: u64, iters: usize) {
         let waker = Waker::from(tw.clone());
         let mut cx = Context::from_waker(&waker);
         let mut hist: Vec<String> = vec![];
-        let fail = |props: &[&str], hist: &Vec<String>, what: String| { if props.contains(&prop) { report(&Fail { prop, scenario: scenario.clone(), history: hist.clone(), what }) } };
+        let fail = |props: &[&str], hist: &Vec<String>, what: String| { if props.contains(&prop) { report(&Fail { prop, scenario: scenario.clone(), history: hist.clone(), what }) } else { std::panic::panic_any(AbortHistory) } };
         let children: Vec<St> = (0..n).map(|_| Rc::new(ChildSt::default())).collect();
         for c in &children {
             if rng.below(3) == 0 {
@@ -1097,6 +1128,7 @@ fn run_join(prop: &'static str, seed: u64, iters: usize) {
                 fail(&["C06"], &hist, format!("output of input {i} dropped {} times", c.out_dropped.get()));
             }
         }
+        });
     }
 }
 
@@ -1247,6 +1279,7 @@ fn run_merge(prop: &'static str, seed: u64, iters: usize) {
         }
     }
     for it in 0..iters {
+        guarded(prop, &["C11"], "run_merge", it, || {
         let unbounded = rng.below(2) == 0;
         // every 50th history: many sources that end (or yield) in the same poll, to cross per-poll budgets
         // every 10th history: three groups' worth of sources (32 + 64 + rest), each group with one behaviour
@@ -1256,7 +1289,7 @@ fn run_merge(prop: &'static str, seed: u64, iters: usize) {
         let modes = [rng.below(4), rng.below(4), rng.below(4)];
         let scenario = format!("{}({nsrc} sources)", if unbounded { "MergeUnbounded" } else { "MergeBounded" });
         let mut hist: Vec<String> = vec![];
-        let fail = |props: &[&str], hist: &Vec<String>, what: String| { if props.contains(&prop) { report(&Fail { prop, scenario: scenario.clone(), history: hist.clone(), what }) } };
+        let fail = |props: &[&str], hist: &Vec<String>, what: String| { if props.contains(&prop) { report(&Fail { prop, scenario: scenario.clone(), history: hist.clone(), what }) } else { std::panic::panic_any(AbortHistory) } };
         let mut sts: Vec<Rc<SrcSt>> = vec![];
         let mut srcs = vec![];
         for i in 0..nsrc {
@@ -1356,6 +1389,144 @@ fn run_merge(prop: &'static str, seed: u64, iters: usize) {
         for (i, s) in sts.iter().enumerate() {
             if s.dropped.get() != 1 {
                 fail(&["C06"], &hist, format!("source {i} dropped {} times", s.dropped.get()));
+            }
+        }
+        });
+    }
+}
+
+
+// ------------------------------------------------------------------------------------------------ C18 unbounded family: allocations do not grow with the number of children processed
+/// Steady-state scenarios: the same work repeated at a constant peak population.  After a warm-up (the groups / heaps have
+/// reached the size the peak needs) further cycles must not allocate at all - otherwise the allocation count grows with
+/// the number of children processed instead of with the logarithm of the peak.
+fn run_alloc_unbounded(prop: &'static str) {
+    if prop != "C18" {
+        return;
+    }
+    let tw = Arc::new(CountWaker(AtomicUsize::new(0)));
+    let waker = Waker::from(tw.clone());
+    let mut cx = Context::from_waker(&waker);
+    macro_rules! measured { ($acc:ident, $e:expr) => {{ let b = ALLOCS.load(Ordering::Relaxed); let r = $e; $acc += ALLOCS.load(Ordering::Relaxed) - b; r }}; }
+    // S1: FuturesUnordered, optionally with one long-lived child pushed first, cycles of push K / drain K
+    for &k in &[5usize, 40, 100, 300] {
+        for pinned in [false, true] {
+            for start_cap in [0usize, 1, 3] {
+                let mut q: FuturesUnordered<Fut> = if start_cap == 0 { FuturesUnordered::new() } else { FuturesUnordered::with_capacity(start_cap) };
+                let scenario = format!("FuturesUnordered (initial capacity {start_cap}){}: 16 cycles of push {k} ready futures / poll until they are all out", if pinned { ", one never-completing future pushed first" } else { "" });
+                let mut id = 0usize;
+                if pinned {
+                    q.push(Fut::new(id, Rc::new(ChildSt::default())));
+                    id += 1;
+                }
+                let mut per_cycle = vec![];
+                for _cycle in 0..16 {
+                    let sts: Vec<St> = (0..k).map(|_| { let s: St = Rc::new(ChildSt::default()); s.ready.set(true); s }).collect();
+                    let mut a = 0usize;
+                    for s in &sts {
+                        let f = Fut::new(id, s.clone());
+                        id += 1;
+                        measured!(a, q.push(f));
+                    }
+                    let mut got = 0;
+                    let mut guard = 0;
+                    while got < k && guard < 10 * k + 100 {
+                        guard += 1;
+                        if let Poll::Ready(Some(o)) = measured!(a, Pin::new(&mut q).poll_next(&mut cx)) {
+                            got += 1;
+                            drop(o);
+                        }
+                    }
+                    per_cycle.push(a);
+                }
+                let late: usize = per_cycle[6..].iter().sum();
+                if late > 0 {
+                    report(&Fail { prop, scenario, history: vec![format!("allocations per cycle: {:?}", per_cycle)], what: format!("{late} allocations in cycles 7..16 at a constant peak of {} held futures: allocations grow with the number of children processed", k + pinned as usize) });
+                }
+            }
+        }
+    }
+    // S2: FuturesOrdered with a pending head and parked outputs; push_front + poll cycles run the index house-keeping every time
+    for parked in [0usize, 2, 5] {
+        let mut q: FuturesOrdered<Fut> = FuturesOrdered::new();
+        let scenario = format!("FuturesOrdered: pending head, {parked} finished outputs parked behind it, 200 cycles of push_front(ready) / poll -> Ready / poll -> Pending");
+        let head: St = Rc::new(ChildSt::default());
+        q.push_back(Fut::new(0, head.clone()));
+        for i in 0..parked {
+            let s: St = Rc::new(ChildSt::default());
+            s.ready.set(true);
+            q.push_back(Fut::new(1 + i, s));
+        }
+        let _ = Pin::new(&mut q).poll_next(&mut cx);
+        let mut per = vec![];
+        for c in 0..200 {
+            let s: St = Rc::new(ChildSt::default());
+            s.ready.set(true);
+            let f = Fut::new(100 + c, s);
+            let mut a = 0usize;
+            measured!(a, q.push_front(f));
+            let r = measured!(a, Pin::new(&mut q).poll_next(&mut cx));
+            drop(r);
+            let r = measured!(a, Pin::new(&mut q).poll_next(&mut cx));
+            drop(r);
+            per.push(a);
+        }
+        let late: usize = per[20..].iter().sum();
+        if late > 0 {
+            report(&Fail { prop, scenario, history: vec![format!("allocations in the first 30 cycles: {:?}", &per[..30])], what: format!("{late} allocations in cycles 21..200 with at most {} futures held", parked + 2) });
+        }
+    }
+    // S3: MergeUnbounded: cycles of push K sources that yield one item and end
+    for &k in &[5usize, 40, 100] {
+        for pinned in [false, true] {
+            let mut rng = Rng(7);
+            let mut m: MergeUnbounded<Src> = MergeUnbounded::new();
+            let scenario = format!("MergeUnbounded{}: 16 cycles of push {k} sources (one item each) / poll until they have all ended", if pinned { ", one never-ending pending source pushed first" } else { "" });
+            let mut id = 0usize;
+            let mut keep = vec![];
+            if pinned {
+                let (s, st) = mk_src(id, &mut rng);
+                st.script.borrow_mut().clear();
+                for _ in 0..100000 { st.script.borrow_mut().push_back(Up::Pending); }
+                keep.push(st);
+                m.push(s);
+                id += 1;
+            }
+            let mut per_cycle = vec![];
+            for _cycle in 0..16 {
+                let mut srcs = vec![];
+                for _ in 0..k {
+                    let (s, st) = mk_src(id, &mut rng);
+                    st.script.borrow_mut().clear();
+                    st.script.borrow_mut().push_back(Up::Item);
+                    st.script.borrow_mut().push_back(Up::End);
+                    keep.push(st);
+                    srcs.push(s);
+                    id += 1;
+                }
+                let mut a = 0usize;
+                for s in srcs {
+                    measured!(a, m.push(s));
+                }
+                let mut got = 0;
+                let mut guard = 0;
+                while got < k && guard < 20 * k + 100 {
+                    guard += 1;
+                    match measured!(a, Pin::new(&mut m).poll_next(&mut cx)) {
+                        Poll::Ready(Some(_)) => got += 1,
+                        _ => {}
+                    }
+                }
+                // let the ended sources be removed
+                for _ in 0..(k / 30 + 3) {
+                    let r = measured!(a, Pin::new(&mut m).poll_next(&mut cx));
+                    drop(r);
+                }
+                per_cycle.push(a);
+            }
+            let late: usize = per_cycle[6..].iter().sum();
+            if late > 0 {
+                report(&Fail { prop, scenario, history: vec![format!("allocations per cycle: {:?}", per_cycle)], what: format!("{late} allocations in cycles 7..16 at a constant peak of {} sources", k + pinned as usize) });
             }
         }
     }
@@ -1462,6 +1633,7 @@ fn run_foreach_zero(prop: &'static str) {
 }
 
 fn main() {
+    install_panic_hook();
     let args: Vec<String> = std::env::args().collect();
     if args.len() < 2 {
         eprintln!("usage: fb-replay <Cxx> [--seed N] [--iters N] [--known]");
@@ -1536,6 +1708,7 @@ fn main() {
             run_collections(prop, seed, iters / 2);
         }
         "C18" => {
+            run_alloc_unbounded(prop);
             run_alloc(prop, seed, iters);
             run_join(prop, seed, iters / 4);
         }
